@@ -30,7 +30,7 @@ Definition usable (c : config) (peers : list addr) (a : ap) : bool :=
   negb (in_my c (ap_addr a)) && global_allow c (ap_addr a) && existsb (fun v => inside_allow c v (ap_addr a)) peers.
 
 Definition configured (c : config) (vpn : addr) : list ap :=
-  flat_map (fun e => if addr_eqb (fst e) vpn then filter (fun a => should_add c [vpn] (ap_addr a)) (snd e) else []) (cfg_static c).
+  flat_map (fun e => if addr_eqb (fst e) vpn then filter (fun a => should_add c [vpn] (ap_addr a)) (static_addrs (snd e)) else []) (cfg_static c).
 
 Definition spec_ok (c : config) (s : lh) (o : lop) (ob : lout) : bool :=
   match o, ob with
@@ -56,7 +56,7 @@ Definition spec_ok (c : config) (s : lh) (o : lop) (ob : lout) : bool :=
               forallb (fun a => usable c peers a && negb (is_bad (rl_bad r) a)) addrs &&
               forallb (fun n => let '(_, (p, q, k)) := n in (p <=? 10) && (q <=? 10) && (k <=? 10)) counts &&
               (* a static host keeps its configured (admitted, not blocked) addresses *)
-              forallb (fun a => is_bad (rl_bad r) a || existsb (ap_eqb (unmap_addr (ap_addr a), ap_port a)) addrs || existsb (ap_eqb a) addrs)
+              forallb (fun a => is_bad (rl_bad r) a || existsb (ap_eqb a) addrs)
                       (configured c vpn)
           | None => false
           end
